@@ -145,6 +145,15 @@ func call(fn string, args ...ast.Expr) *ast.CallExpr {
 }
 func str(s string) ast.Expr { return &ast.BasicLit{Kind: token.STRING, Value: strconv.Quote(s)} }
 
+// se2 returns the receiver of a lock call when it is itself a selector (x.L in x.L.Lock()).
+func se2(se *ast.SelectorExpr) (*ast.SelectorExpr, bool) {
+	if se == nil {
+		return nil, false
+	}
+	x, ok := se.X.(*ast.SelectorExpr)
+	return x, ok
+}
+
 func lockCall(ce *ast.CallExpr) (se *ast.SelectorExpr, kind string) {
 	if len(ce.Args) != 0 {
 		return nil, ""
@@ -350,6 +359,9 @@ func rewriteFile(fset *token.FileSet, f *ast.File, rel string, stats map[string]
 				die("%s: Wait() statement in unsupported position", pos(n))
 			}
 			se, kind := lockCall(ce)
+			if lx, ok := se2(se); ok && lx.Sel.Name == "L" && (kind == "Lock" || kind == "RLock") {
+				return true // a sync.Cond's Locker (wrapped by CondLocker): its Lock parks by itself
+			}
 			switch kind {
 			case "Lock", "RLock":
 				try := "Try" + kind
@@ -402,6 +414,20 @@ func rewriteFile(fset *token.FileSet, f *ast.File, rel string, stats map[string]
 				changed = true
 			}
 		case *ast.CallExpr:
+			// sync.Cond: its Locker is wrapped so that the re-lock inside Cond.Wait (and direct
+			// c.L.Lock() calls, which are left as they are) parks durably like every other lock
+			if isPkgCall(n, "sync", "NewCond") && len(n.Args) == 1 {
+				n.Args[0] = call("CondLocker", n.Args[0])
+				stats["cond"]++
+				changed = true
+				return true
+			}
+			if se, ok := n.Fun.(*ast.SelectorExpr); ok && se.Sel.Name == "RLocker" && len(n.Args) == 0 {
+				c.Replace(call("RLockerOf", &ast.SelectorExpr{X: se.X, Sel: ast.NewIdent("TryRLock")}, &ast.SelectorExpr{X: se.X, Sel: ast.NewIdent("RLock")}, &ast.SelectorExpr{X: se.X, Sel: ast.NewIdent("RUnlock")}))
+				stats["rlocker"]++
+				changed = true
+				return true
+			}
 			if isPkgCall(n, "time", "AfterFunc") && len(n.Args) == 2 {
 				n.Args[1] = call("Callback", str("afterfunc@"+pos(n)), n.Args[1])
 				stats["afterfunc"]++
